@@ -14,6 +14,9 @@ trap cleanup EXIT
 git -C /repo worktree add -q "$top/repo" HEAD || exit 2
 if ! git -C "$top/repo" apply "$patch"; then echo "PATCH-DOES-NOT-APPLY $patch"; exit 2; fi
 mkdir -p "$top/verif"
+# (default: the checks as committed at HEAD - an edit in progress in the working tree must not
+# leak into a measurement; MUTATE_WORKTREE=1 takes the working tree instead)
+[ -z "${MUTATE_VERIF_REV:-}" ] && [ -z "${MUTATE_WORKTREE:-}" ] && MUTATE_VERIF_REV=HEAD
 if [ -n "${MUTATE_VERIF_REV:-}" ]; then
   # the checks as they were at a given commit of /verif (first-contact measurements)
   git -C "$src" archive "$MUTATE_VERIF_REV" -- bin sim known_findings.json MANIFEST.json | tar -x -C "$top/verif"
